@@ -244,6 +244,8 @@ def run(chk):
     events = record_sessions(rnd, 500 if thorough else 120, 30 if thorough else 18, root)
     validate_sessions(chk, events, 'sessions')
     chk.sample({'session_events': events[:5]})
+    # 4b. reference data locations: class-level defaults, per-instance tables, relative names (RefLoc.tla) ------------
+    location_sessions(chk, rnd, 600 if thorough else 120)
     # 5. the pytest entry point: real `python -m pytest` processes with --write-all / --write kinds... --------------
     pytest_sessions(chk, rnd, 240 if thorough else 36)
     # binding demonstration (thorough): corrupt one field / drop one event -> must be rejected
@@ -259,6 +261,43 @@ def run(chk):
     chk.assume('a write is observed as a change of (inode, mtime_ns, size, sha1) after ageing the file')
     chk.assume('outcome of a normal-mode assertion whose reference is missing is not demanded '
                '(failure or error), only that nothing is created')
+
+
+def location_sessions(chk, rnd, n):
+    from harness import refloc_session as rls
+    r = tlc.run('MC_RefLoc', 'MC_RefLoc.cfg', name='MC_RefLoc')
+    chk.add_tlc(r)
+    if r.violated:
+        chk.machinery_error('MC_RefLoc violates %s' % r.violated)
+    root = common.subdir('c10_locations')
+    events, details = rls.record_sessions(rnd, n, root, tid0=200000)
+    clean = [{k: v for k, v in e.items() if k != 'detail'} for e in events]
+    res, rejected = trace.validate('Trace_RefLoc', 'Trace_RefLoc.cfg', clean, name='location_sessions', workers=4)
+    if res.error and 'not fully consumed' in (res.error or ''):
+        skipped = 0
+        for rej in rejected:
+            i = rej['line']
+            tid = events[i - 1]['tid']
+            skipped += sum(1 for e in events[i:] if e['tid'] == tid)
+        done = [x for x in res.rows if 'consumed' in x]
+        if done and done[-1]['consumed'] >= len(events) - skipped - len(rejected):
+            res.ok, res.error = True, None
+    chk.add_tlc(res)
+    chk.coverage['traces_validated_against_impl'] += n
+    chk.coverage['location_session_events'] = len(events)
+    for rej in rejected:
+        e = events[rej['line'] - 1]
+        for clause in rej['bad']:
+            sig = {'kind': 'reference-locations', 'clause': clause}
+            if e.get('outcome') == 'error':
+                sig['error'] = e.get('detail', '').split(':')[0]
+            chk.violation(sig, {'event': e, 'session_prefix': [x for x in details[e['tid']] if x['seq'] <= e['seq']][-10:],
+                                'how': 'ReferenceTest.set_default_data_location / set_data_location / assertStringCorrect with a relative '
+                                       'reference name; judged by spec/Trace_RefLoc.tla (location tables reconstructed by the specification)'})
+    for tid, log in list(details.items())[:300]:
+        chk.count_case(('locations', tid, len(log)), nontrivial=any(x['ev'] == 'Assert' for x in log))
+    if events:
+        chk.sample({'location_session': clean[:6]})
 
 
 def pytest_sessions(chk, rnd, n):
